@@ -43,7 +43,7 @@ func (e *Exec) native(callee *ssa.Function, name string, args []Term, reach stri
 		bv := builderVar(u)
 		h2 := h.set(bv, app("store", h.get(bv), A(0), app("str.++", app("select", h.get(bv), A(0)), A(1))))
 		n := intT(app("str.len", A(1)))
-		return Term{Tup: []Term{n, mk("0", SInt, types.Universe.Lookup("error").Type())}, T: callee.Signature.Results()}, h2, true
+		return Term{Tup: []Term{n, mk("0", SRef, types.Universe.Lookup("error").Type())}, T: callee.Signature.Results()}, h2, true
 	case "(*strings.Builder).String", "(*bytes.Buffer).String":
 		bv := builderVar(u)
 		return strT(app("select", h.get(bv), A(0))), h, true
